@@ -92,13 +92,17 @@ def reader_cls(block):
                 return res
     else:
         class R(DiffXReader):
-            def _read_until(self, c, chunk_size=block):
+            def _read_until(self, c, *a, **k):
+                # only the DEFAULT of chunk_size is replaced; whatever else
+                # the library passes (a refactoring may add parameters) is
+                # handed through
+                if not a and 'chunk_size' not in k:
+                    k['chunk_size'] = block
                 fp = self._fp
                 p0 = fp.tell()
                 fp.in_until = True
                 try:
-                    res = DiffXReader._read_until(self, c,
-                                                  chunk_size=chunk_size)
+                    res = DiffXReader._read_until(self, c, *a, **k)
                 finally:
                     fp.in_until = False
                 self._acct.append((p0, len(res[0]), fp.tell(), res[1]))
@@ -255,7 +259,31 @@ def base_files():
     b8, _ = spec.serialize([['change', None], ['file', None], M,
                             ['change', None]], 'utf-8')
     files.append(('ends-in-container', b8 + b'\n\n'))
+    files.append(varying_lengths_file())
     return files
+
+
+def varying_lengths_file():
+    """Same-stage headers whose lengths differ by 1..3 bytes in both
+    directions (4-digit then 2-digit lengths, 10 then 9), contents that
+    start with a newline / with "{" + newline."""
+    big = {'path': 'f', 'blob': ['v' * 40] * 30}
+    calls = [['preamble', '\n\nstarts blank\n', None, 0, None, None],
+             ['change', None],
+             ['preamble', '\nnine\n'[:9] + 'x' * 3 + '\n', None, 0, None,
+              None],
+             ['file', None], ['meta', big, None],
+             ['diff', b'\n' * 3 + b'x' * 996 + b'\n', None, None, None],
+             ['file', None], ['meta', {'p': 'q'}, None],
+             ['diff', b'\n' * 3 + b'y' * 6 + b'\n', None, None, None],
+             ['file', None], ['meta', big, None],
+             ['diff', b'\nz\n', None, None, None],
+             ['change', None],
+             ['preamble', '\n\n\nabc\n' * 30, None, 0, None, None],
+             ['file', None], ['meta', {'p': 'r'}, None],
+             ['file', None], ['meta', {'p': 'r' * 100}, None]]
+    b, _ = spec.serialize(calls, 'utf-8')
+    return ('varying-lengths', b)
 
 
 def _crlf_headers(data):
